@@ -15,3 +15,4 @@ pub mod bmp_http;
 pub mod targets;
 pub mod manager;
 pub mod mrt_import;
+pub mod ribquery;
